@@ -188,6 +188,18 @@ func (h *H) raceCase(id string, mask uint32, ops []raceOp) {
 		}
 		r.Emit(q.enc(), fmt.Sprintf("res1=%s res2=%s ev=%s %s %s", res1, res2, inp.Join(kept), out, inp.CanonState(f.Vx.VerifC03Snapshot())))
 		r.Count("race-" + q.order)
+		if q.order != "reply-first" {
+			if strings.Contains(res1, "not-held") {
+				h.raceUnforced++
+			} else {
+				h.raceForced++
+			}
+		}
+		if strings.Contains(res1, "not-held") {
+			// the machine was too slow to force the schedule within the watchdog: not judged, the case ends here
+			r.Count("race-unforced")
+			break
+		}
 	}
 	f.Fc.Respond = nil
 	f.Drain()
